@@ -1133,15 +1133,17 @@ func zipInnerSubscription[T any](subscriberCtx context.Context, obs Observable[T
 					mu.Lock()
 
 					*completed = true
+					drained := len(*values) == 0
 
-					if len(*values) == 0 {
-						mu.Unlock()
+					mu.Unlock()
+
+					// A source that completes with values still queued must not stop the
+					// others: they keep feeding tuples until this queue is drained, and the
+					// output completes then (see onUpdate).
+					if drained {
 						destination.CompleteWithContext(ctx)
-					} else {
-						mu.Unlock()
+						subscriptions.Unsubscribe()
 					}
-
-					subscriptions.Unsubscribe()
 				},
 			),
 		),
@@ -1191,7 +1193,11 @@ func ZipWith1[A, B any](obsB Observable[B]) func(Observable[A]) Observable[lo.Tu
 
 					if (completedA && len(valueA) == 0) ||
 						(completedB && len(valueB) == 0) {
+						mu.Unlock() // unlock before completing: the teardown takes the same lock
+
 						destination.CompleteWithContext(ctx) // @TODO: Send the last context ?
+
+						return
 					}
 				}
 
@@ -1258,7 +1264,11 @@ func ZipWith2[A, B, C any](obsB Observable[B], obsC Observable[C]) func(Observab
 					if (completedA && len(valueA) == 0) ||
 						(completedB && len(valueB) == 0) ||
 						(completedC && len(valueC) == 0) {
+						mu.Unlock() // unlock before completing: the teardown takes the same lock
+
 						destination.CompleteWithContext(ctx) // @TODO: Send the last context ?
+
+						return
 					}
 				}
 
@@ -1332,7 +1342,11 @@ func ZipWith3[A, B, C, D any](obsB Observable[B], obsC Observable[C], obsD Obser
 						(completedB && len(valueB) == 0) ||
 						(completedC && len(valueC) == 0) ||
 						(completedD && len(valueD) == 0) {
+						mu.Unlock() // unlock before completing: the teardown takes the same lock
+
 						destination.CompleteWithContext(ctx) // @TODO: Send the last context ?
+
+						return
 					}
 				}
 
@@ -1414,7 +1428,11 @@ func ZipWith4[A, B, C, D, E any](obsB Observable[B], obsC Observable[C], obsD Ob
 						(completedC && len(valueC) == 0) ||
 						(completedD && len(valueD) == 0) ||
 						(completedE && len(valueE) == 0) {
+						mu.Unlock() // unlock before completing: the teardown takes the same lock
+
 						destination.CompleteWithContext(ctx) // @TODO: Send the last context ?
+
+						return
 					}
 				}
 
@@ -1505,7 +1523,11 @@ func ZipWith5[A, B, C, D, E, F any](obsB Observable[B], obsC Observable[C], obsD
 						(completedD && len(valueD) == 0) ||
 						(completedE && len(valueE) == 0) ||
 						(completedF && len(valueF) == 0) {
+						mu.Unlock() // unlock before completing: the teardown takes the same lock
+
 						destination.CompleteWithContext(ctx) // @TODO: Send the last context ?
+
+						return
 					}
 				}
 
@@ -1578,8 +1600,11 @@ func zipAllInnerSubscriptions[T any](outerCtx context.Context, sources []Observa
 
 			for i := range sources {
 				if completed[i] && len(values[i]) == 0 {
+					mu.Unlock() // unlock before completing: the teardown takes the same lock
+
 					destination.CompleteWithContext(ctx) // @TODO: Send the last context ?
-					break
+
+					return
 				}
 			}
 		}
